@@ -12,15 +12,16 @@
 (*   AddASE(j, a)  add_ase: a[c] watts of noise are ADDED to the channel: P and A grow by a[c]              *)
 (*   AddNLI(j, r)  add_nli: the fraction r[c] = nli/pch of the channel power is TRANSFERRED to N:           *)
 (*                 P is kept; S, A, N each give up their fraction r and N receives r*P                      *)
-(*   Demux(M)      demuxed_spectral_information / select_channels: the channels M are taken out as one     *)
-(*                 spectrum, the others form the second one; M may be a band, the complement of a band      *)
+(*   Demux(j, M)   demuxed_spectral_information / select_channels: the channels M of spectrum j are taken   *)
+(*                 out as one spectrum, the others form a second one; M may be a band, the complement of a  *)
 (*                 (so the band in the middle of a comb) or any other selection - a later Mux then          *)
 (*                 INTERLEAVES the two spectra                                                               *)
-(*   Mux           muxed_spectral_information: the bands are re-assembled in frequency order                 *)
+(*   Mux           muxed_spectral_information: ALL spectra (two or more) are re-assembled in frequency order *)
 (* j designates the (sub-)spectrum an operation acts on: between Demux and Mux each band is processed by    *)
 (* its own amplifier (Multiband_amplifier), otherwise there is one spectrum.                                 *)
 (*                                                                                                          *)
-(* C01 clauses: Conservation, SharesInUnitInterval, GsnrIdentity, MuxDemuxLossless, DemuxMuxKeepLedger.      *)
+(* C01 clauses: Conservation, SharesInUnitInterval, GsnrIdentity, MuxDemuxLossless, DemuxMuxKeepLedger,      *)
+(*              SourceUntouched.                                                                            *)
 (* C02 clauses: KeepsOsnr, KeepsNli, LowersOsnr, LowersNli, NeverImprovesGsnr, OthersUntouched.              *)
 EXTENDS Rat, Sequences, FiniteSets
 
@@ -29,7 +30,8 @@ CONSTANTS NCh,        \* number of launched channels; a channel's id is its rank
           ScaleArgs,  \* set of vectors <<f_1, ..., f_NCh>> of gain/loss factors (> 0)
           AseArgs,    \* set of vectors of added ASE powers (>= 0)
           NliArgs,    \* set of vectors of transferred fractions r = nli / pch, 0 <= r < 1
-          Splits      \* set of channel selections M: Demux(M) separates the channels of M from the others
+          Splits,     \* set of channel selections M: Demux(j, M) separates the channels of M from the others of spectrum j
+          MaxParts    \* largest number of spectra that exist (and are merged) at once
 
 ASSUME /\ NCh \in Nat \ {0}
        /\ \A c \in 1..NCh : IsRat(Launch[c]) /\ RLt(RZero, Launch[c])
@@ -40,8 +42,10 @@ ASSUME /\ NCh \in Nat \ {0}
        /\ \A M \in Splits : M \subseteq 1..NCh /\ M # {} /\ M # 1..NCh
 
 VARIABLES parts,   \* sequence of spectra; a spectrum is a sequence of channel records [id, P, S, A, N]
+          src,     \* the spectrum the sub-spectra were extracted from, as it was then (<<>> when there is one spectrum):
+                   \* extraction does not consume its source, which stays usable (Multiband_amplifier, filter_si)
           last     \* the operation that produced this state: [op, j, arg] (arg: per-channel vector or <<>>)
-vars == <<parts, last>>
+vars == <<parts, src, last>>
 
 Chan  == 1..NCh
 NoArg == [c \in Chan |-> RZero]
@@ -58,37 +62,46 @@ OnPart(ps, j, F(_)) == [ps EXCEPT ![j] = [k \in 1..Len(ps[j]) |-> F(ps[j][k])]]
 IdsOf(spec) == {spec[k].id : k \in 1..Len(spec)}
 
 Init == /\ parts = << [c \in Chan |-> [id |-> c, P |-> Launch[c], S |-> Launch[c], A |-> RZero, N |-> RZero]] >>
+        /\ src = <<>>
         /\ last = [op |-> "Launch", j |-> 0, arg |-> NoArg]
 
-Scale(j, f) == /\ parts' = OnPart(parts, j, LAMBDA ch : ScaleCh(ch, f[ch.id]))
+Scale(j, f) == /\ parts' = OnPart(parts, j, LAMBDA ch : ScaleCh(ch, f[ch.id])) /\ UNCHANGED src
                /\ last' = [op |-> "Scale", j |-> j, arg |-> [c \in Chan |-> IF c \in IdsOf(parts[j]) THEN f[c] ELSE ROne]]
 
-AddASE(j, a) == /\ parts' = OnPart(parts, j, LAMBDA ch : AseCh(ch, a[ch.id]))
+AddASE(j, a) == /\ parts' = OnPart(parts, j, LAMBDA ch : AseCh(ch, a[ch.id])) /\ UNCHANGED src
                 /\ last' = [op |-> "AddASE", j |-> j, arg |-> [c \in Chan |-> IF c \in IdsOf(parts[j]) THEN a[c] ELSE RZero]]
 
 \* the argument of add_nli is a power: arg records nli = r * pch of each channel of the part
-AddNLI(j, r) == /\ parts' = OnPart(parts, j, LAMBDA ch : NliCh(ch, r[ch.id]))
+AddNLI(j, r) == /\ parts' = OnPart(parts, j, LAMBDA ch : NliCh(ch, r[ch.id])) /\ UNCHANGED src
                 /\ last' = [op |-> "AddNLI", j |-> j,
                             arg |-> [c \in Chan |-> IF c \in IdsOf(parts[j])
                                                     THEN RMul(r[c], (CHOOSE ch \in {parts[j][k] : k \in 1..Len(parts[j])} : ch.id = c).P)
                                                     ELSE RZero]]
 
-\* the selected channels first: when M is the upper band the spectra are handed on (and merged again) high band first,
-\* as Multiband_amplifier does with its amplifiers in configuration order
-Demux(M) == /\ Len(parts) = 1
-            /\ parts' = << SelectSeq(parts[1], LAMBDA ch : ch.id \in M), SelectSeq(parts[1], LAMBDA ch : ch.id \notin M) >>
-            /\ last' = [op |-> "Demux", j |-> 0, arg |-> NoArg]
+\* Spectrum j is split: the selected channels first (when M is the upper band the spectra are handed on, and merged
+\* again, high band first, as Multiband_amplifier does with its amplifiers in configuration order).  A sub-spectrum
+\* may be split again, so that up to MaxParts spectra are merged at once.
+Demux(j, M) == /\ Len(parts) < MaxParts
+               /\ M # {} /\ M \subseteq IdsOf(parts[j]) /\ M # IdsOf(parts[j])
+               /\ parts' = SubSeq(parts, 1, j - 1)
+                            \o << SelectSeq(parts[j], LAMBDA ch : ch.id \in M), SelectSeq(parts[j], LAMBDA ch : ch.id \notin M) >>
+                            \o SubSeq(parts, j + 1, Len(parts))
+               /\ src' = IF Len(parts) = 1 THEN parts[1] ELSE src
+               /\ last' = [op |-> "Demux", j |-> j, arg |-> NoArg]
 
-\* SpectralInformation.__add__ appends and the constructor sorts by frequency
-Mux == /\ Len(parts) = 2
-       /\ LET all == parts[1] \o parts[2]
+\* muxed_spectral_information(list): SpectralInformation.__add__ appends, the constructor sorts by frequency
+RECURSIVE Flat(_)
+Flat(ps) == IF ps = <<>> THEN <<>> ELSE Head(ps) \o Flat(Tail(ps))
+Mux == /\ Len(parts) >= 2
+       /\ LET all == Flat(parts)
           IN parts' = << [c \in Chan |-> CHOOSE ch \in {all[k] : k \in 1..Len(all)} : ch.id = c] >>
+       /\ src' = <<>>
        /\ last' = [op |-> "Mux", j |-> 0, arg |-> NoArg]
 
 Next == \/ \E j \in 1..Len(parts) : \/ \E f \in ScaleArgs : Scale(j, f)
                                     \/ \E a \in AseArgs : AddASE(j, a)
                                     \/ \E r \in NliArgs : AddNLI(j, r)
-        \/ \E M \in Splits : Demux(M)
+        \/ \E j \in 1..Len(parts) : \E M \in Splits : Demux(j, M)
         \/ Mux
 Spec == Init /\ [][Next]_vars
 
@@ -102,7 +115,7 @@ All(ps)    == UNION {{ps[j][k] : k \in 1..Len(ps[j])} : j \in 1..Len(ps)}
 Led(ps, c) == CHOOSE ch \in All(ps) : ch.id = c                  \* the ledger of channel c wherever it is
 Touched    == IF last'.op \in {"Scale", "AddASE", "AddNLI"} THEN IdsOf(parts[last'.j]) ELSE {}
 
-TypeOK == /\ Len(parts) \in {1, 2}
+TypeOK == /\ Len(parts) \in 1..MaxParts
           /\ \A ch \in All(parts) : ch.id \in Chan /\ IsRat(ch.P) /\ IsRat(ch.S) /\ IsRat(ch.A) /\ IsRat(ch.N)
 
 -----------------------------------------------------------------------------
@@ -122,6 +135,11 @@ MuxDemuxLossless ==       \* every launched channel is present exactly once, eac
     /\ \A c \in Chan : Cardinality({<<j, k>> \in (1..Len(parts)) \X Chan : k <= Len(parts[j]) /\ parts[j][k].id = c}) = 1
     /\ \A j \in 1..Len(parts) : \A k \in 1..(Len(parts[j]) - 1) : parts[j][k].id < parts[j][k + 1].id
     /\ \A j \in 1..Len(parts) : Len(parts[j]) > 0
+
+\* extracting a band does not touch - and later work on the band does not reach back into - the spectrum it came from
+SourceUntouchedStep == (src # <<>> /\ last'.op # "Mux") => src' = src
+SourceUntouched == [][SourceUntouchedStep]_vars
+SourceIsWhole == src = <<>> <=> Len(parts) = 1
 
 DemuxMuxKeepLedgerStep == last'.op \in {"Demux", "Mux"} => \A c \in Chan : Led(parts', c) = Led(parts, c)
 DemuxMuxKeepLedger == [][DemuxMuxKeepLedgerStep]_vars       \* band split / merge neither creates nor loses power
